@@ -387,11 +387,11 @@ package inference
 //@ assert after:OrderedMap).Store newMap-object-kept (= (deref newMap) (atloop (deref newMap)))
 //@ assert after:OrderedMap).Store newMap-index-kept (and (= (mapdom newMap.inner) (atloop (mapdom newMap.inner))) (= (mapvals newMap.inner) (atloop (mapvals newMap.inner))))
 //@ assert after:OrderedMap).Store newMap-row-kept (= (rowat newMap.Pairs (arrof newMap.Pairs)) (atloop (rowat newMap.Pairs (arrof newMap.Pairs))))
-//@ assert after:OrderedMap).Store newMap-pairs-kept (forall ((j Int)) (=> (omInRange newMap j) (= (deref (omPair newMap j)) (atloop (deref (omPair newMap j))))))
+//@ assert after:OrderedMap).Store newMap-pairs-kept (forall ((j Int)) (=> (omInRange newMap j) (and (= (omPair newMap j) (atloop (omPair newMap j))) (= (deref (omPair newMap j)) (atloop (deref (omPair newMap j)))))) (pattern (omPair newMap j)) (pattern (atloop (omPair newMap j))))
 //@ assert after:OrderedMap).Store oldMap-object-kept (= (deref oldMap) (atloop (deref oldMap)))
 //@ assert after:OrderedMap).Store oldMap-index-kept (and (= (mapdom oldMap.inner) (atloop (mapdom oldMap.inner))) (= (mapvals oldMap.inner) (atloop (mapvals oldMap.inner))))
 //@ assert after:OrderedMap).Store oldMap-row-kept (= (rowat oldMap.Pairs (arrof oldMap.Pairs)) (atloop (rowat oldMap.Pairs (arrof oldMap.Pairs))))
-//@ assert after:OrderedMap).Store oldMap-pairs-kept (forall ((j Int)) (=> (omInRange oldMap j) (= (deref (omPair oldMap j)) (atloop (deref (omPair oldMap j))))))
+//@ assert after:OrderedMap).Store oldMap-pairs-kept (forall ((j Int)) (=> (omInRange oldMap j) (and (= (omPair oldMap j) (atloop (omPair oldMap j))) (= (deref (omPair oldMap j)) (atloop (deref (omPair oldMap j)))))) (pattern (omPair oldMap j)) (pattern (atloop (omPair oldMap j))))
 //@ loop 0 invariant scanning (and (fresh diff) (omOK diff) (not (= diff newMap)) (not (= diff oldMap)) (omOK newMap) (omOK oldMap)
 //@    (inputsKept newMap oldMap) (oldStateKept newMap)
 //@    (<= -1 rangeindex) (< rangeindex (len newMap.Pairs))
@@ -413,7 +413,7 @@ package inference
 //@ prop C06 C03
 //@ define (keptSinceCall m) (and (= (deref m) (atcall (deref m))) (= (mapdom m.inner) (atcall (mapdom m.inner))) (= (mapvals m.inner) (atcall (mapvals m.inner)))
 //@    (= (rowat m.Pairs (arrof m.Pairs)) (atcall (rowat m.Pairs (arrof m.Pairs)))))
-//@ define (pairsKeptSinceCall m) (forall ((j Int)) (=> (omInRange m j) (= (deref (omPair m j)) (atcall (deref (omPair m j))))))
+//@ define (pairsKeptSinceCall m) (forall ((j Int)) (=> (omInRange m j) (and (= (omPair m j) (atcall (omPair m j))) (= (deref (omPair m j)) (atcall (deref (omPair m j)))))) (pattern (omPair m j)) (pattern (atcall (omPair m j))))
 //@ assert after:inferredValDiff$2 new-implicants-kept (keptSinceCall (nImplicants newVal))
 //@ assert after:inferredValDiff$2 new-implicants-pairs-kept (pairsKeptSinceCall (nImplicants newVal))
 //@ assert after:inferredValDiff$2 old-implicants-kept (keptSinceCall (nImplicants oldVal))
